@@ -160,7 +160,11 @@ func (m *RefLockDB) Lock(client string, c Cmd) []Reply {
 				// update of an existing hold: answered LOCKED_ERROR either way; the terms change unless the
 				// server considers them equal (allowed to ignore a move of at most one unit)
 				h.Reqs = append(h.Reqs, c.Req)
-				return []Reply{{client, c.Req, LOCKED_ERROR, d, h.Depth, true}}
+				// Count, Rcount and the priority flag are never "equal enough" to be ignored: the hold takes the
+				// request's; if that makes room, the queue is served (C04)
+				h.Count, h.Rcount = c.Count, c.Rcount
+				h.TFlag = (h.TFlag &^ TFlagPriority) | (c.TimeoutFlag & TFlagPriority)
+				return append([]Reply{{client, c.Req, LOCKED_ERROR, d, h.Depth, true}}, m.wake(k)...)
 			}
 			if h.Depth < 0xff && h.Depth <= int(c.Rcount) && c.TimeoutFlag&TFlagPriority == 0 {
 				if c.Expried == 0 {
@@ -169,7 +173,7 @@ func (m *RefLockDB) Lock(client string, c Cmd) []Reply {
 				h.Depth++
 				h.Count, h.Rcount, h.Req, h.Client, h.TFlag = c.Count, c.Rcount, c.Req, client, c.TimeoutFlag
 				h.Reqs = nil
-				return []Reply{{client, c.Req, SUCCED, d + 1, h.Depth, true}}
+				return append([]Reply{{client, c.Req, SUCCED, d + 1, h.Depth, true}}, m.wake(k)...)
 			}
 			return []Reply{{client, c.Req, LOCKED_ERROR, d, h.Depth, false}}
 		}
